@@ -84,6 +84,8 @@ type c13 struct {
 	lines    []string
 
 	// monitor state
+	besOK       int // executed exact-spend purchases of this trace
+	streakBes   bool
 	trades      int
 	streakActor int
 	streak      []c13Snap
@@ -283,7 +285,7 @@ func (c *c13) reset(fl []string) string {
 		c.base = append(c.base, c.f.Bal(a, c.liq))
 	}
 	c.t0 = c.f.Time
-	c.trades, c.streakActor, c.streak = 0, -1, nil
+	c.trades, c.streakActor, c.streak, c.besOK, c.streakBes = 0, -1, nil, 0, false
 	c.kinds, c.nontrivial = nil, false
 	return "ok"
 }
@@ -523,17 +525,26 @@ func (c *c13) monitorState() {
 	if !ok {
 		return
 	}
+	// cause: the creation fee booked as sold (sold within the fee) or a trade
+	cause := "by-trade"
+	if p.SoldAmt.LTE(c.k().GetParams(c.f.Ctx).CreationFee) {
+		cause = "by-creation-fee"
+	}
 	if p.SoldAmt.GT(p.MaxAmountToSell) {
-		c.viol("C13/sold_bounded/sold-exceeds-max-sell", fmt.Sprintf("sold %s > maxSell %s", p.SoldAmt, p.MaxAmountToSell))
+		c.viol("C13/sold_bounded/sold-exceeds-max-sell/"+cause, fmt.Sprintf("sold %s > maxSell %s", p.SoldAmt, p.MaxAmountToSell))
 	}
 	if p.SoldAmt.GT(p.TotalAllocation.Amount) || p.MaxAmountToSell.GT(p.TotalAllocation.Amount) {
-		c.viol("C13/sold_bounded/exceeds-allocation", fmt.Sprintf("sold %s maxSell %s allocation %s", p.SoldAmt, p.MaxAmountToSell, p.TotalAllocation.Amount))
+		c.viol("C13/sold_bounded/exceeds-allocation/"+cause, fmt.Sprintf("sold %s maxSell %s allocation %s", p.SoldAmt, p.MaxAmountToSell, p.TotalAllocation.Amount))
 	}
 	if !p.IsSettled() {
 		bal := c.f.Bal(p.GetAddress(), c.liq)
 		val := c.curve.Cost(math.ZeroInt(), p.SoldAmt)
 		if bal.AddRaw(int64(c.trades)).LT(val) {
-			c.viol("C13/solvent/plan-balance-below-curve-value", fmt.Sprintf("plan holds %s, curve value of sold %s is %s, executed trades %d (short by %s)", bal, p.SoldAmt, val, c.trades, val.Sub(bal)))
+			sig := "C13/solvent/plan-balance-below-curve-value/buy-sell-only"
+			if c.besOK > 0 {
+				sig = "C13/solvent/plan-balance-below-curve-value/after-exact-spend"
+			}
+			c.viol(sig, fmt.Sprintf("plan holds %s, curve value of sold %s is %s, executed trades %d (short by %s)", bal, p.SoldAmt, val, c.trades, val.Sub(bal)))
 		}
 	} else {
 		supply := c.f.App.BankKeeper.GetSupply(c.f.Ctx, c.iroDenom).Amount
@@ -562,6 +573,9 @@ func (c *c13) monitorState() {
 				break
 			}
 		}
+		if what == "plan-sold-exceeds-allocation" {
+			what += "/" + cause
+		}
 		c.viol("C13/invariant/"+what, msg)
 		c.onFix = 1 << 30 // the shared app keeps the broken plan: start the next trace on a fresh app
 	}
@@ -581,6 +595,9 @@ func (c *c13) afterTrade(kind string, ai int, a sdk.AccAddress, pb irotypes.Plan
 		}
 	}
 	c.trades++
+	if kind == "bes" {
+		c.besOK++
+	}
 	pa, _ := c.plan()
 	liqNow := c.f.Bal(a, c.liq)
 	// exact-spend clause
@@ -598,10 +615,18 @@ func (c *c13) afterTrade(kind string, ai int, a sdk.AccAddress, pb irotypes.Plan
 	if c.streakActor != ai {
 		c.streakActor = ai
 		c.streak = []c13Snap{{pb.SoldAmt, liqBefore}} // the state before this trade is the first snapshot
+		c.streakBes = false
+	}
+	if kind == "bes" {
+		c.streakBes = true
 	}
 	for _, s := range c.streak {
 		if s.sold.Equal(pa.SoldAmt) && !liqNow.LT(s.liq) {
-			c.viol("C13/roundtrip/no-loss-on-round-trip", fmt.Sprintf("a%d: sold back to %s with liquidity %s >= %s before", ai, s.sold, liqNow, s.liq))
+			sig := "C13/roundtrip/no-loss-on-round-trip/buy-sell-only"
+			if c.streakBes {
+				sig = "C13/roundtrip/no-loss-on-round-trip/with-exact-spend"
+			}
+			c.viol(sig, fmt.Sprintf("a%d: sold back to %s with liquidity %s >= %s before", ai, s.sold, liqNow, s.liq))
 		}
 	}
 	c.streak = append(c.streak, c13Snap{pa.SoldAmt, liqNow})
